@@ -18,6 +18,8 @@ package main
 import (
 	"bytes"
 	"context"
+	"encoding/json"
+	"hash/fnv"
 	"fmt"
 	"io"
 	"io/fs"
@@ -109,25 +111,38 @@ def _c05r(f): try f catch {"__c05_err": (if type == "string" then . else tojson 
         elif $op.op == "fmt" then _c05r($v | tovalue({bits_format: $op.f, sizebase: $op.sb}))
         elif $op.op == "rfmt8" then _c05r($v | tobytesrange | tovalue({bits_format: $op.f, sizebase: $op.sb}))
         elif $op.op == "rfmt1" then _c05r($v | tobitsrange | tovalue({bits_format: $op.f, sizebase: $op.sb}))
-        else error("c05: bad op") end
+        elif $op.op == "agg" then _c05r($v | tovalue({bits_format: $op.f, sizebase: $op.sb}))
+        elif $op.op == "aggd" then _c05r($v | tovalue)
+        elif $op.op == "twice" then _c05r([$v, $v] | tovalue({bits_format: $op.f, sizebase: $op.sb}))
+        else error("c05: bad op " + ($op | tojson)) end
       | _verif_c05($op.id) )
     | empty )
   , ( select($plan.stdout)
     | (_verif_c05("mark0") | empty), (try ($v | tobytes) catch (_verif_c05("stdouterr") | empty)), (_verif_c05("mark1") | empty) )
   , ( select($plan.stdoutr)
     | (_verif_c05("mark0") | empty), (try ($v | tobytesrange) catch (_verif_c05("stdouterr") | empty)), (_verif_c05("mark1r") | empty) )
+  , ( select($plan.aggv)
+    | (_verif_c05("mark0") | empty), (try ($v | tovalue) catch (_verif_c05("stdouterr") | empty)), (_verif_c05("markv") | empty) )
   )
 `
 
 // ---------------------------------------------------------------- session / tap
 
 type opDesc struct {
-	text string // op text of the line: tobits | tobytes | tobits:P | tobytes:P | fmt:F:SB | rfmt8:F:SB | rfmt1:F:SB | stdout
+	// op text of the line: tobits | tobytes | tobits:P | tobytes:P | fmt:F:SB | rfmt8:F:SB | rfmt1:F:SB | stdout | stdoutr
+	// aggregates (one `a` case line each): agg:F:SB = tovalue({bits_format:F}) of a COMPOUND, aggd:F = tovalue with
+	// the options of the command line (`-o bits_format=F`), aggv:F = the JSON printed for `… | tovalue` under
+	// `-o bits_format=F`, twice:F:SB = [$v,$v] | tovalue({bits_format:F})
+	text string
+}
+
+func (d opDesc) isAgg() bool {
+	return strings.HasPrefix(d.text, "agg") || strings.HasPrefix(d.text, "twice")
 }
 
 func (d opDesc) jq(id int) map[string]any {
 	ps := strings.Split(d.text, ":")
-	m := map[string]any{"id": strconv.Itoa(id)}
+	m := map[string]any{"id": strconv.Itoa(id), "t": d.text}
 	switch ps[0] {
 	case "tobits", "tobytes":
 		if len(ps) == 2 {
@@ -137,7 +152,9 @@ func (d opDesc) jq(id int) map[string]any {
 		} else {
 			m["op"] = ps[0]
 		}
-	case "fmt", "rfmt8", "rfmt1":
+	case "aggd":
+		m["op"] = "aggd"
+	case "fmt", "rfmt8", "rfmt1", "agg", "twice":
 		sb, _ := strconv.Atoi(ps[2])
 		m["op"] = ps[0]
 		m["f"] = ps[1]
@@ -157,6 +174,128 @@ type rec struct {
 	obs                     []string
 	wantStdout              bool
 	wantStdoutR             bool // also the raw stdout of `tobytesrange` (keep_range: the pad is applied by Display)
+	rawLeaves               int  // compound: number of raw-bits leaves below it (counted up to a cap)
+	wantAgg                 bool // set by the selector: evaluate the aggregate renderings on this compound
+	aggs                    map[int]*aggRes
+	aggvID                  int
+}
+
+// aggRes is one aggregate rendering compared leaf by leaf
+type aggRes struct {
+	total  int
+	leaves []*rec
+	obs    []string
+}
+
+type missingT struct{}
+
+const maxAggLeaves = 2500
+
+func isRawDV(dv *decode.Value) bool {
+	sc, ok := dv.V.(scalar.Scalarable)
+	if !ok || sc.ScalarFlags().IsSynthetic() {
+		return false
+	}
+	_, isBR := sc.ScalarValue().(bitio.ReaderAtSeeker)
+	return isBR
+}
+
+// countRawLeaves counts raw leaves below dv, giving up after `nodes` visited values
+func countRawLeaves(dv *decode.Value, nodes *int) int {
+	*nodes--
+	if *nodes < 0 {
+		return maxAggLeaves + 1
+	}
+	switch vv := dv.V.(type) {
+	case *decode.Compound:
+		n := 0
+		for _, c := range vv.Children {
+			n += countRawLeaves(c, nodes)
+			if n > maxAggLeaves {
+				return n
+			}
+		}
+		return n
+	default:
+		if isRawDV(dv) {
+			return 1
+		}
+	}
+	return 0
+}
+
+// walkAgg walks the decode tree and the converted value in parallel and records, for every raw
+// leaf, what the conversion produced at its place
+func (s *session) walkAgg(dv *decode.Value, res any, a *aggRes, bytesLeft *int64) {
+	switch vv := dv.V.(type) {
+	case *decode.Compound:
+		if vv.IsArray {
+			arr, ok := res.([]any)
+			for i, c := range vv.Children {
+				var r any = missingT{}
+				if ok && i < len(arr) {
+					r = arr[i]
+				}
+				s.walkAgg(c, r, a, bytesLeft)
+			}
+			return
+		}
+		m, ok := res.(map[string]any)
+		for _, c := range vv.Children {
+			var r any = missingT{}
+			if ok {
+				if x, has := m[c.Name]; has {
+					r = x
+				}
+			}
+			s.walkAgg(c, r, a, bytesLeft)
+		}
+	default:
+		if !isRawDV(dv) {
+			return
+		}
+		a.total++
+		lr := s.recFromDV(dv)
+		if len(a.leaves) >= maxAggLeaves || *bytesLeft < lr.windowBytes() || lr.length > 8*64*1024 {
+			return
+		}
+		*bytesLeft -= lr.windowBytes()
+		lr.raw = true
+		a.leaves = append(a.leaves, lr)
+		a.obs = append(a.obs, canon(res))
+	}
+}
+
+func (s *session) aggregate(r *rec, id int, res any) {
+	if r.aggs == nil {
+		r.aggs = map[int]*aggRes{}
+	}
+	a := &aggRes{}
+	r.aggs[id] = a
+	if m, ok := res.(map[string]any); ok {
+		if e, isErr := m["__c05_err"]; isErr && len(m) == 1 {
+			es, _ := e.(string)
+			if strings.HasPrefix(es, "err:") {
+				a.obs = []string{es}
+			} else {
+				a.obs = []string{errKind(es)}
+			}
+			return
+		}
+	}
+	left := int64(512 * 1024)
+	if strings.HasPrefix(r.ops[id].text, "twice") {
+		arr, _ := res.([]any)
+		for i := 0; i < 2; i++ {
+			var x any = missingT{}
+			if i < len(arr) {
+				x = arr[i]
+			}
+			s.walkAgg(r.dv, x, a, &left)
+		}
+		return
+	}
+	s.walkAgg(r.dv, res, a, &left)
 }
 
 type session struct {
@@ -216,6 +355,19 @@ func (s *session) newRec(c any) *rec {
 	if s.top == nil {
 		s.top = dv
 	}
+	r := s.recFromDV(dv)
+	r.raw = interp.VerifC05IsRaw(c)
+	if r.raw != isRawDV(dv) && !r.synth {
+		s.o.Stat("raw_flag_mismatch", 1)
+	}
+	if _, isCompound := dv.V.(*decode.Compound); isCompound {
+		nodes := 20000
+		r.rawLeaves = countRawLeaves(dv, &nodes)
+	}
+	return r
+}
+
+func (s *session) recFromDV(dv *decode.Value) *rec {
 	r := &rec{dv: dv, path: valuePath(dv), start: dv.Range.Start, length: dv.Range.Len, isRoot: dv.IsRoot}
 	if sc, ok := dv.V.(scalar.Scalarable); ok && sc.ScalarFlags().IsSynthetic() {
 		r.synth = true
@@ -223,7 +375,6 @@ func (s *session) newRec(c any) *rec {
 	if _, isCompound := dv.V.(*decode.Compound); isCompound && dv.IsRoot && dv.Format == nil {
 		r.ownCoord = true
 	}
-	r.raw = interp.VerifC05IsRaw(c)
 	r.top = dv == s.top
 	r.nested = dv.BufferRoot() != s.top
 	l, err := bitiox.Len(dv.RootReader)
@@ -261,12 +412,40 @@ func (s *session) tap(c any, tag any) any {
 			for i := range r.obs {
 				r.obs[i] = "missing"
 			}
-			return map[string]any{"ops": jops, "stdout": r.wantStdout, "stdoutr": r.wantStdout && r.wantStdoutR}
+			aggv := false
+			var jops2 []any
+			for i, o := range ops {
+				if strings.HasPrefix(o.text, "aggv") {
+					aggv = true
+					r.aggvID = i
+					continue
+				}
+				jops2 = append(jops2, jops[i])
+			}
+			return map[string]any{"ops": jops2, "stdout": r.wantStdout, "stdoutr": r.wantStdout && r.wantStdoutR, "aggv": aggv}
 		case "mark0":
 			s.mark0 = s.stdout.Len()
 			return nil
 		case "stdouterr":
 			s.stdoutErr = errKind(fmt.Sprint(c))
+			return nil
+		case "markv":
+			if s.cur != nil {
+				b := append([]byte(nil), s.stdout.Bytes()[s.mark0:]...)
+				s.stdout.Reset()
+				var res any = missingT{}
+				if s.stdoutErr != "" {
+					res = map[string]any{"__c05_err": s.stdoutErr}
+				} else {
+					var j any
+					if err := json.Unmarshal(b, &j); err == nil {
+						res = j
+					}
+				}
+				s.stdoutErr = ""
+				s.aggregate(s.cur, s.cur.aggvID, res)
+				s.cur.obs[s.cur.aggvID] = "agg"
+			}
 			return nil
 		case "mark1", "mark1r":
 			if s.cur != nil {
@@ -291,6 +470,11 @@ func (s *session) tap(c any, tag any) any {
 			}
 			id, err := strconv.Atoi(t)
 			if err != nil || id < 0 || id >= len(s.cur.obs) {
+				return nil
+			}
+			if s.cur.ops[id].isAgg() {
+				s.aggregate(s.cur, id, c)
+				s.cur.obs[id] = "agg"
 				return nil
 			}
 			s.cur.obs[id] = canon(c)
@@ -349,6 +533,9 @@ func canon(c any) string {
 		b := make([]byte, 0, len(v))
 		for _, e := range v {
 			n, ok := e.(int)
+			if f, isF := e.(float64); isF && f == float64(int(f)) { // JSON path
+				n, ok = int(f), true
+			}
 			if !ok || n < 0 || n > 255 {
 				return "a:bad"
 			}
@@ -357,6 +544,8 @@ func canon(c any) string {
 		return "a:" + hlib.Hex(b)
 	case nil:
 		return "null"
+	case missingT:
+		return "missing"
 	case error:
 		return errKind(v.Error())
 	}
@@ -427,12 +616,7 @@ func (s *session) window(r *rec) (int64, []byte) {
 	return woff, b
 }
 
-func (s *session) finish() {
-	r := s.cur
-	s.cur = nil
-	if r == nil {
-		return
-	}
+func (s *session) flags(r *rec) string {
 	fl := ""
 	if r.isRoot {
 		fl += "R"
@@ -451,13 +635,64 @@ func (s *session) finish() {
 	}
 	if r.ownCoord {
 		fl += "F"
+	}
+	if fl == "" {
+		fl = "-"
+	}
+	return fl
+}
+
+func (s *session) finish() {
+	r := s.cur
+	s.cur = nil
+	if r == nil {
+		return
+	}
+	fl := s.flags(r)
+	if r.ownCoord {
 		s.o.Stat("values_owncoord_root", 1)
 		if r.start != 0 {
 			s.o.Stat("owncoord_root_start_ne_0", 1)
 		}
 	}
-	if fl == "" {
-		fl = "-"
+	// aggregate renderings: one `a` line each, every raw leaf with its own buffer window
+	for id, o := range r.ops {
+		if !o.isAgg() {
+			continue
+		}
+		a := r.aggs[id]
+		if a == nil {
+			a = &aggRes{obs: []string{"missing"}}
+		}
+		var sb strings.Builder
+		fmt.Fprintf(&sb, "a src=%s path=%s op=%s n=%d", s.src, r.path, o.text, a.total)
+		for _, l := range a.leaves {
+			woff, w := s.window(l)
+			fmt.Fprintf(&sb, " lf=%s,%d,%d:%d,%s,%d:%s", strings.TrimPrefix(l.path, r.path), l.L, l.start, l.length, s.flags(l), woff, hlib.Hex(w))
+		}
+		obs := strings.Join(a.obs, ";")
+		if len(a.obs) == 0 {
+			obs = "none"
+		}
+		s.o.Case(sb.String(), obs)
+		s.o.Stat("agg_cases", 1)
+		s.o.Stat("agg_leaves", len(a.leaves))
+		s.o.Stat("op_"+strings.SplitN(o.text, ":", 2)[0], 1)
+		if len(a.leaves) >= 2 {
+			s.o.Class(fmt.Sprintf("agg %s %d", o.text, min(len(a.leaves), 9)))
+		}
+	}
+	var ops []opDesc
+	var obss []string
+	for i, o := range r.ops {
+		if !o.isAgg() {
+			ops = append(ops, o)
+			obss = append(obss, r.obs[i])
+		}
+	}
+	r.ops, r.obs = ops, obss
+	if len(r.ops) == 0 {
+		return
 	}
 	woff, w := s.window(r)
 	opTexts := make([]string, len(r.ops))
@@ -509,6 +744,16 @@ func (s *session) runMain(format, fname string, data []byte) (err error) {
 	return s.runMainOpts(format, "-", fname, data)
 }
 
+// the bits_format given on the command line of every Main run (`-o bits_format=F`), a function of
+// the source so that a case line replays; only formats whose rendering survives JSON printing
+var cliFormats = []string{"md5", "hex", "base64", "snippet", "byte_array", "md5"}
+
+func cliFmtFor(src string) string {
+	h := fnv.New32a()
+	h.Write([]byte(src))
+	return cliFormats[h.Sum32()%uint32(len(cliFormats))]
+}
+
 func (s *session) runMainOpts(format, opts, fname string, data []byte) (err error) {
 	s.stdout = &bytes.Buffer{}
 	s.top = nil
@@ -522,6 +767,7 @@ func (s *session) runMainOpts(format, opts, fname string, data []byte) (err erro
 			args = append(args, "-o", kv)
 		}
 	}
+	args = append(args, "-o", "bits_format="+cliFmtFor(s.src))
 	args = append(args, program, fname)
 	vo := &vos{args: args, files: vfs{fname: data}, stdout: s.stdout, stderr: &bytes.Buffer{}}
 	sess = s
@@ -577,10 +823,36 @@ func pickSizebase(r *hlib.Rand) int {
 // level 2: everything (synthetic trees, thorough); level 1: tobits, tobytes and a random half of
 // the rest (synthetic trees, quick — every (alignment, length) occurs in >= 9 places, so each
 // combination still meets every operation with high probability); level 0: sampled (real files).
-func planFor(rc *rec, r *hlib.Rand, level int) ([]opDesc, bool) {
+func planFor(rc *rec, r *hlib.Rand, level int, cli string) ([]opDesc, bool) {
 	if rc.synth {
 		return []opDesc{{"tobits"}, {"tobytes"}}, false
 	}
+	ops, stdout := planBase(rc, r, level)
+	// aggregates: ONE conversion that renders several raw values (one Options value, one
+	// BitsFormatFn closure): a compound with >= 2 raw leaves, or the same raw value twice
+	if rc.wantAgg && rc.rawLeaves >= 2 && rc.rawLeaves <= maxAggLeaves {
+		for _, f := range allFormats {
+			if f == "md5" || level == 2 || r.Intn(3) == 0 {
+				sb := 10
+				if f == "snippet" {
+					sb = pickSizebase(r)
+				}
+				ops = append(ops, opDesc{fmt.Sprintf("agg:%s:%d", f, sb)})
+			}
+		}
+		ops = append(ops, opDesc{"aggd:" + cli}, opDesc{"aggv:" + cli})
+	}
+	if rc.raw && rc.length <= 32768 && (level == 2 || r.Intn(6) == 0) {
+		f := "md5"
+		if r.Intn(2) == 0 {
+			f = allFormats[r.Intn(len(allFormats))]
+		}
+		ops = append(ops, opDesc{fmt.Sprintf("twice:%s:10", f)})
+	}
+	return ops, stdout
+}
+
+func planBase(rc *rec, r *hlib.Rand, level int) ([]opDesc, bool) {
 	full := level == 2
 	big := rc.length > 32768
 	var ops []opDesc
@@ -697,6 +969,7 @@ func collectInputs(repo string) []inputFile {
 }
 
 type fileBudget struct {
+	maxAgg      int
 	maxValues   int
 	maxBytes    int64
 	capPerClass int
@@ -755,12 +1028,27 @@ func runFile(o *hlib.Out, r *hlib.Rand, repo string, in inputFile, bud fileBudge
 			if _, ok := sel[rc.path]; ok {
 				return
 			}
-			ops, stdout := planFor(rc, r, 0)
+			ops, stdout := planFor(rc, r, 0, cliFmtFor(src))
 			sel[rc.path] = ops
 			so[rc.path] = stdout
 			bytesUsed += rc.windowBytes()
 		}
+		if all[0].rawLeaves <= 400 {
+			all[0].wantAgg = true // the whole tree in one conversion
+		}
 		take(all[0])
+		nAgg := 0
+		for _, ix := range perm {
+			rc := all[ix]
+			if nAgg >= bud.maxAgg {
+				break
+			}
+			if rc.rawLeaves >= 2 && rc.rawLeaves <= 64 {
+				rc.wantAgg = true
+				nAgg++
+				take(rc)
+			}
+		}
 		for _, ix := range perm {
 			rc := all[ix]
 			if len(sel) >= bud.maxValues || bytesUsed > bud.maxBytes {
@@ -823,7 +1111,7 @@ func runFile(o *hlib.Out, r *hlib.Rand, repo string, in inputFile, bud fileBudge
 
 func parseOpLine(l string) (src, path string, ops []opDesc, ok bool) {
 	ws := strings.Fields(l)
-	if len(ws) < 2 || ws[0] != "v" {
+	if len(ws) < 2 || (ws[0] != "v" && ws[0] != "a") {
 		return
 	}
 	for _, w := range ws[1:] {
@@ -832,6 +1120,8 @@ func parseOpLine(l string) (src, path string, ops []opDesc, ok bool) {
 			src = w[4:]
 		case strings.HasPrefix(w, "path="):
 			path = w[5:]
+		case strings.HasPrefix(w, "op="):
+			ops = append(ops, opDesc{w[3:]})
 		case strings.HasPrefix(w, "ops="):
 			for _, t := range strings.Split(w[4:], ",") {
 				if t != "" {
@@ -884,9 +1174,9 @@ func main() {
 		inputs := collectInputs(repo)
 		o.Stat("inputs_available", len(inputs))
 		// per-format cap so that wasm/tzif (≈ 1900 tiny files) do not crowd out the rest
-		perFormat, bud := 2, fileBudget{maxValues: 80, maxBytes: 128 * 1024, capPerClass: 28}
+		perFormat, bud := 2, fileBudget{maxAgg: 3, maxValues: 80, maxBytes: 128 * 1024, capPerClass: 28}
 		if cfg.Thorough() {
-			perFormat, bud = 12, fileBudget{maxValues: 500, maxBytes: 1024 * 1024, capPerClass: 150}
+			perFormat, bud = 12, fileBudget{maxAgg: 12, maxValues: 500, maxBytes: 1024 * 1024, capPerClass: 150}
 		}
 		for i := len(inputs) - 1; i > 0; i-- {
 			j := r.Intn(i + 1)
